@@ -58,7 +58,7 @@ def build(seed, perm_seed=None, lower=False):
                 c.add(n.lower() if lower else n, v, parameters=use)
         subs = rnd.randint(0, 2) if depth > 0 else 0
         for _ in range(subs):
-            kind = rnd.choice(["VEVENT", "VTODO", "VALARM", "X-BOX"])
+            kind = rnd.choice(["VEVENT", "VTODO", "VALARM", "X-BOX", "VTIMEZONE", "VJOURNAL", "VFREEBUSY", "STANDARD"])
             sub = icalendar.cal.component_factory.get(kind, icalendar.Component)()
             if not getattr(sub, "name", None):
                 sub.name = kind
@@ -103,12 +103,52 @@ def names_in_order(c, data):
     return out
 
 
+def block_tree(data):
+    """the nesting of BEGIN/END blocks of a serialisation as (name, [children]) and the repeated-property values per block"""
+    root = ("", [], {})
+    stack = [root]
+    for line in data.replace(b"\r\n ", b"").split(b"\r\n"):
+        u = line.upper()
+        if u.startswith(b"BEGIN:"):
+            node = (line[6:].decode(), [], {})
+            stack[-1][1].append(node)
+            stack.append(node)
+        elif u.startswith(b"END:"):
+            stack.pop()
+        elif line:
+            head, _, val = line.partition(b":")
+            stack[-1][2].setdefault(head.split(b";")[0].decode().upper(), []).append(val)
+    return root[1][0] if root[1] else None
+
+
+def tree_mismatch(c, node):
+    """subcomponents and the values of a repeated property keep their insertion order (both values of `sorted`)"""
+    if node is None or node[0] != c.name:
+        return f"block {node and node[0]!r} for component {c.name!r}"
+    if [n[0] for n in node[1]] != [s.name for s in c.subcomponents]:
+        return f"subcomponents of {c.name} are written as {[n[0] for n in node[1]]}, inserted as {[s.name for s in c.subcomponents]}"
+    for k in ("COMMENT", "ATTENDEE"):
+        v = c.get(k)
+        if isinstance(v, list):
+            want = [x.to_ical() for x in v]
+            if node[2].get(k) != want:
+                return f"values of the repeated property {k} are written as {node[2].get(k)!r}, inserted as {want!r}"
+    for s, n in zip(c.subcomponents, node[1]):
+        m = tree_mismatch(s, n)
+        if m:
+            return m
+    return None
+
+
 def check(seed, nperm):
     msgs = []
     for srt in (True, False):
         c = build(seed)
         before = snapshot(c)
         a = c.to_ical(sorted=srt)
+        tm = tree_mismatch(c, block_tree(a))
+        if tm:
+            msgs.append(f"insertion order not kept (sorted={srt}): {tm}")
         mid = snapshot(c)
         b2 = c.to_ical(sorted=srt)
         if a != b2:
